@@ -36,8 +36,9 @@ type c14Handler struct {
 	mu     sync.Mutex
 	events []c14Event
 	errs   []string
-	gate   chan struct{} // nil: never blocks
-	ack    chan struct{} // nil: no acknowledgement
+	gate    chan struct{} // nil: never blocks
+	entered chan struct{} // with gate: signalled when the handler starts waiting on it
+	ack     chan struct{} // nil: no acknowledgement
 	mutate bool          // modify the received models after recording them
 }
 
@@ -74,6 +75,7 @@ func (h *c14Handler) record(kind, table string, old, new model.Model) {
 		}
 	}
 	if h.gate != nil {
+		h.entered <- struct{}{}
 		<-h.gate
 	}
 	if h.ack != nil {
@@ -161,6 +163,7 @@ func TestC14(t *testing.T) {
 		nh := rapid.IntRange(1, 3).Draw(t, "nhandlers")
 		kase.Handlers = nh
 		gate := make(chan struct{}, totalEvents+1)
+		entered := make(chan struct{}, totalEvents+16)
 		ack := make(chan struct{}, totalEvents+16)
 		var hs []*c14Handler
 		for i := 0; i < nh; i++ {
@@ -168,6 +171,7 @@ func TestC14(t *testing.T) {
 			h := &c14Handler{w: w, mutate: i == nh-1 && rapid.Bool().Draw(t, "mutatinghandler")}
 			if i == 0 {
 				h.gate = gate
+				h.entered = entered
 			}
 			if i == nh-1 {
 				h.ack = ack
@@ -177,7 +181,8 @@ func TestC14(t *testing.T) {
 		}
 		stop := make(chan struct{})
 		done := make(chan struct{})
-		go func() { tc.Run(stop); close(done) }()
+		stopped := false
+		go func(stop, done chan struct{}) { tc.Run(stop); close(done) }(stop, done)
 		defer func() {
 			// never leave the dispatcher blocked behind the gate
 			for i := 0; i < totalEvents+1; i++ {
@@ -186,12 +191,17 @@ func TestC14(t *testing.T) {
 				default:
 				}
 			}
-			close(stop)
+			if !stopped {
+				close(stop)
+			}
 			<-done
 		}()
 
-		// schedule: A = apply next notification, R = release one event
+		// schedule: A = apply next notification, R = release one event, S = stop the
+		// dispatcher (as a disconnect does) and start it again (as the next connection
+		// does); r = an event the stopping dispatcher still picked up
 		applied, released, queued := 0, 0, 0
+		restarts, restartsWithBacklog := 0, 0
 		maxLag := 0
 		var word strings.Builder
 		waitAck := func() bool {
@@ -209,6 +219,37 @@ func TestC14(t *testing.T) {
 		for applied < len(notes) || released < totalEvents {
 			canA := applied < len(notes)
 			canR := released < queued
+			if restarts < 3 && rapid.IntRange(0, 5).Draw(t, "restart") == 0 {
+				backlog := queued - released
+				close(stop)
+				stopped = true
+			drain:
+				for {
+					select {
+					case <-done:
+						break drain
+					case <-entered:
+						// the dispatcher is inside handler 0 for the next event: let it finish
+						gate <- struct{}{}
+						if !waitAck() {
+							fail("events.missing", "event %d of %d: the handlers were entered but the last one never acknowledged", released+1, totalEvents)
+						}
+						released++
+						word.WriteString("r")
+					case <-time.After(20 * time.Second):
+						fail("harness.dispatcher-stuck", "the dispatcher neither stopped nor entered a handler")
+					}
+				}
+				stop, done = make(chan struct{}), make(chan struct{})
+				stopped = false
+				go func(stop, done chan struct{}) { tc.Run(stop); close(done) }(stop, done)
+				restarts++
+				if backlog >= 2 {
+					restartsWithBacklog++
+				}
+				word.WriteString("S")
+				continue
+			}
 			doA := canA && (!canR || rapid.Bool().Draw(t, "apply"))
 			if doA {
 				n := notes[applied]
@@ -264,6 +305,11 @@ func TestC14(t *testing.T) {
 					maxLag = queued - released
 				}
 				continue
+			}
+			select {
+			case <-entered:
+			case <-time.After(20 * time.Second):
+				fail("events.missing", "event %d of %d was never delivered (a dispatcher is running, %d events are outstanding, schedule so far %s)", released+1, totalEvents, queued-released, word.String())
 			}
 			gate <- struct{}{}
 			if !waitAck() {
@@ -358,6 +404,6 @@ func TestC14(t *testing.T) {
 			}
 		}
 		kit.Record("C14", schemaKinds(s)+word.String()+fmt.Sprint(nh), rich && maxLag >= 2, func() interface{} { kase.Schedule = word.String(); return kase },
-			fmt.Sprintf("handlers:%d", nh), fmt.Sprintf("maxlag>=2:%v", maxLag >= 2))
+			fmt.Sprintf("handlers:%d", nh), fmt.Sprintf("maxlag>=2:%v", maxLag >= 2), fmt.Sprintf("dispatcher-restarts:%d", restarts), fmt.Sprintf("restarts-with-backlog>=2:%d", restartsWithBacklog))
 	})
 }
